@@ -281,10 +281,64 @@ def peel(v):
         elif isinstance(v, RBox): v = v.cell[0]
         else: return v
 
+ITER_ITEM = {'Chars': 'char', 'CharIndices': '(usize, char)', 'Bytes': 'u8', 'Split': '&str', 'RSplit': '&str', 'SplitN': '&str', 'RSplitN': '&str',
+             'SplitWhitespace': '&str', 'SplitAsciiWhitespace': '&str', 'Lines': '&str', 'SplitTerminator': '&str', 'SplitInclusive': '&str',
+             'Matches': '&str', 'EscapeDebug': 'char', 'EscapeDefault': 'char', 'ToUppercase': 'char', 'ToLowercase': 'char', 'String': 'char', 'str': 'char'}
+def normalize_projection(it, t):
+    """`<X as Trait>::Name` -> concrete type tree when it can be known (std iterator items, user impls' associated types)"""
+    if t is None or t[0] != 'opaque': return t
+    m = re.match(r'^<(.+) as ([\w:]+)(?:<.*>)?>::(\w+)$', t[1])
+    if not m: return t
+    X = parse_ty(m.group(1)); trait = m.group(2).split('::')[-1]; name = m.group(3)
+    if trait in ('Iterator', 'IntoIterator', 'DoubleEndedIterator') and name == 'Item':
+        r = item_type(it, X)
+        return r if r is not None else t
+    if trait == 'Deref' and name == 'Target':
+        if X[0] == 'path' and X[1] == 'String': return parse_ty('str')
+        if X[0] == 'path' and X[1] == 'Vec' and X[3]: return ('slice', X[3][0])
+        if X[0] == 'path' and X[1] in ('Box', 'Rc', 'Arc') and X[3]: return X[3][0]
+    if trait in ('Add', 'Sub', 'Mul', 'Div', 'Rem', 'Neg', 'Not') and name == 'Output' and X[0] == 'path' and (X[1] in INT_TYS or X[1] in ('f64', 'f32')): return X
+    # user impls
+    si = getattr(it.prog, 'si', None)
+    xb = X
+    while xb[0] == 'ref': xb = xb[2]
+    if si is not None and xb[0] == 'path':
+        for imp in si.impls.values():
+            if imp.get('trait') and imp.get('assoc') and name in imp['assoc']:
+                tt = parse_ty(imp['trait']); st = parse_ty(imp['self_ty'])
+                while st[0] == 'ref': st = st[2]
+                if tt[0] == 'path' and tt[1] == trait and st[0] == 'path' and st[1] == xb[1] and not imp['generics']:
+                    return parse_ty(imp['assoc'][name])
+    return t
+def item_type(it, X):
+    if X[0] == 'ref':
+        inner = X[2]
+        if inner[0] == 'path' and inner[1] in ('Vec', 'VecDeque', 'HashSet', 'BTreeSet', 'Option') and inner[3]: return ('ref', X[1], inner[3][0])
+        if inner[0] in ('slice', 'array'): return ('ref', X[1], inner[1])
+        return item_type(it, inner)                     # &mut I: Iterator
+    if X[0] in ('array',): return X[1]
+    if X[0] != 'path': return None
+    n = X[1]; a = X[3]
+    if n in ITER_ITEM: return parse_ty(ITER_ITEM[n])
+    if n in ('IntoIter', 'Vec', 'VecDeque', 'HashSet', 'BTreeSet', 'Option', 'Range', 'RangeInclusive', 'RangeFrom', 'Drain', 'Once', 'Repeat', 'Empty') and a: return a[-1] if n in ('IntoIter', 'Drain') and len(a) > 1 and False else a[0]
+    if n in ('Iter',) and a: return ('ref', False, a[0])
+    if n in ('IterMut',) and a: return ('ref', True, a[0])
+    if n in ('Rev', 'Skip', 'Take', 'StepBy', 'Filter', 'Peekable', 'Chain', 'SkipWhile', 'TakeWhile', 'Fuse', 'Inspect', 'Cycle') and a: return item_type(it, a[0])
+    if n in ('Cloned', 'Copied') and a:
+        r = item_type(it, a[0]); return r[2] if r and r[0] == 'ref' else r
+    if n == 'Enumerate' and a:
+        r = item_type(it, a[0]); return ('tuple', [parse_ty('usize'), r]) if r else None
+    if n == 'Zip' and len(a) >= 2:
+        r0, r1 = item_type(it, a[0]), item_type(it, a[1]); return ('tuple', [r0, r1]) if r0 and r1 else None
+    if n == 'Flatten' and a:
+        r = item_type(it, a[0]); return item_type(it, r) if r else None
+    return None
+
 def fmt_value(it, v, ty, mode, spec=DEFAULT, depth=0):
     """chars of `v` (any pointer depth) formatted as type `ty` (text or parsed, may be None = value-directed)"""
     if depth > 200: raise Unsupported('fmt recursion')
     t = parse_ty(ty) if isinstance(ty, str) else ty
+    if t is not None and t[0] == 'opaque' and t[1].startswith('<'): t = normalize_projection(it, t)
     while t is not None and t[0] == 'ref': t = t[2]
     if isinstance(v, DynRef) and (t is None or (t[0] == 'opaque' and t[1].startswith('dyn '))):
         t = parse_ty(v.dyn_ty)
@@ -365,6 +419,15 @@ def fmt_user(it, pv, tyname, mode, spec, depth):
     s = RString(); f = Fmtr(s, spec)
     names = [tyname] if tyname else []
     if getattr(pv, 'ty', None) and pv.ty not in names: names.append(pv.ty)
+    active = getattr(it, 'fmt_active', None)
+    if active is None: active = it.fmt_active = set()
+    key = (id(pv), mode)
+    if key in active: return fmt_untyped(it, pv, mode, spec, depth, no_user=True)       # the trait model called us back: no MIR impl
+    active.add(key)
+    try: return _fmt_user_call(it, pv, names, trait, s, f, mode, spec, depth)
+    finally: active.discard(key)
+
+def _fmt_user_call(it, pv, names, trait, s, f, mode, spec, depth):
     last = None
     for n in names:
         try:
